@@ -234,7 +234,7 @@ func C02(tier string) int {
 		fmt.Println("MACHINERY:", err)
 		return 2
 	}
-	h := Harness{File: "c02.go", Extra: []string{"lib_bondmachine.go"}, Pkg: "pkg/bondmachine"}
+	h := Harness{File: "c02.go", Extra: []string{"lib_bondmachine.go", "lib_emitted.go", "c02_stream.go"}, Pkg: "pkg/bondmachine"}
 	gs := c02Family(tier, Seed())
 	hdl := make([]Outcome, len(gs))
 	var wg sync.WaitGroup
@@ -252,18 +252,22 @@ func C02(tier string) int {
 	for _, g := range gs {
 		cfgs = append(cfgs, Config{Name: "sim-wiring " + g.spec(), Func: "zzC02Wiring", Args: []Arg{S(g.spec())}})
 	}
+	scfgs, scases, serrs, srej := c02bConfigs(tier, &h)
+	cfgs = append(cfgs, scfgs...)
 	sp := &Spec{
 		ID: "C02", Level: "translation_validation", Tier: tier, Harness: h,
 		LoadPkgs: []string{"pkg/bondmachine"},
-		Opts:     RunOpts{Pkg: h.Pkg, Inits: []string{"pkg/bmnumbers", "pkg/procbuilder", "pkg/bondmachine"}},
+		Opts:     RunOpts{Pkg: h.Pkg, Inits: []string{"pkg/bmnumbers", "pkg/procbuilder", "pkg/bondmachine"}, Post: c02bPost(scases), TimeoutMs: 60000},
 		Assumptions: []string{
 			"part (a) of the design only: WIRING. For each bond graph of the family (built through the real Add_input/Add_output/Add_processor/Add_bond), (1) the generated top-level netlist, with processors as black boxes whose output pins are free variables, connects every bonded consumer data/valid pin and every external output to exactly its producer, and every bonded producer's received line equals the AND of the received lines of exactly the inputs bonded to it, for all pin values; (2) the simulator's data-movement phases (two VM.Step with processors running 'j 0') implement the same relation for all port values",
-			"stream equality between HDL and simulation (part (b): programs, input streams, stalls over a horizon) is NOT covered: the claim is about the netlist and the simulator's interconnect, not about end-to-end output streams",
+			"part (b), bounded and for concrete programs: for each source of a seeded family (the one-CP family of C05 with its entry label first: labels, jumps, macros, mov with literals, inc/dec/add/clr/cpy/nop, i2r/r2o; register sizes 8/16) the real assembler is run natively and the real generators write the Verilog of the emitted machine - top level, arch wrapper, processor and the ROM WITH ITS GENERATED CONTENTS; /verif/vlog unrolls it from one reset cycle for T = 2*lines+4 cycles and z3 decides that after every cycle every external output and the pc, and at the horizon every register, equal the simulator's after the same number of ticks, FOR ALL values of the external inputs (constant, valid). Registers the generated reset does not assign (the output registers) are taken to power up at 0, the FPGA convention and the simulator's initial value. Handshaked I/O, several processors, input streams and stalls are outside part (b) (handshakes: C04 on both back-ends)",
 			"unbonded endpoints are not constrained; shared objects, etherbond/udpbond modules and board top files are outside; 8-bit machines; graphs are sampled from the stated family with VERIF_SEED",
 		},
 		Bounds: map[string]interface{}{"graphs": len(gs), "processors_max": 3, "domains_N:M": "1:1,2:1,1:2", "history_length_max": map[string]int{"quick": 4, "thorough": 5}},
 		Rule:   "programs = bond graphs; one obligation per connected pin (data, valid) and per bonded producer (received), on the HDL side and on the simulator side",
 	}
+	sp.Bounds["stream_sources"] = len(scfgs) + srej
+	sp.Bounds["stream_sources_rejected_by_the_front_end"] = srej
 	p := LoadProgram(sp.LoadPkgs, h)
 	loadS := time.Since(t0).Seconds()
 	simOuts := RunFamily(p, FilterConfigs(cfgs), sp.Opts)
@@ -272,5 +276,12 @@ func C02(tier string) int {
 		cov["programs"] = len(gs)
 		cov["disagreements_checked"] = len(outs)
 	}
-	return Finish(sp, append(hdl, simOuts...), t0, loadS)
+	code := Finish(sp, append(hdl, simOuts...), t0, loadS)
+	for _, e := range serrs {
+		fmt.Println("MACHINERY:", e)
+	}
+	if len(serrs) > 0 && code == 0 {
+		code = 2
+	}
+	return code
 }
